@@ -213,6 +213,9 @@ func validate(bundle *crl.Bundle, issuer *x509.Certificate) error {
 	if err := validateCRL(deltaCRL, issuer); err != nil {
 		return fmt.Errorf("failed to validate delta CRL: %w", err)
 	}
+	if deltaCRL.Number == nil || baseCRL.Number == nil {
+		return errors.New("CRL number is missing in base CRL or delta CRL")
+	}
 	if deltaCRL.Number.Cmp(baseCRL.Number) <= 0 {
 		return fmt.Errorf("delta CRL number %d is not greater than the base CRL number %d", deltaCRL.Number, baseCRL.Number)
 	}
